@@ -12,6 +12,8 @@ def lp(inp):
     rng = np.random.RandomState(11)
     r0, ks = _rc(inp, p, cx, rng)
     ks = np.array(ks)
+    for j in inp.get("realidx") or []:
+        ks[int(j)] = ks[int(j)].real          # a real-VALUED coefficient inside a complex-typed set
     r, a, P = ac_from_rc(r0, list(ks))
     poly = np.concatenate(([1.0], a))
     tol = 1e-8
